@@ -8,6 +8,7 @@ import (
 	"os"
 	"path/filepath"
 	"regexp"
+	"runtime/pprof"
 	"sort"
 	"strings"
 	"sync"
@@ -284,8 +285,14 @@ func main() {
 	unwind := flag.Int("unwind", 64, "default loop unwinding bound for symbolic loops")
 	maxPaths := flag.Int("max-paths", 100000, "path budget per harness")
 	list := flag.Bool("list", false, "list harnesses and exit")
+	cpuprof := flag.String("cpuprofile", "", "write a CPU profile")
 	flag.Parse()
 	sym.RepoDir = *repo
+	if *cpuprof != "" {
+		f, _ := os.Create(*cpuprof)
+		pprof.StartCPUProfile(f)
+		defer pprof.StopCPUProfile()
+	}
 
 	l, err := load(*repo, *verif, strings.Split(*groups, ","))
 	if err != nil {
